@@ -622,6 +622,16 @@ pub fn c20_extras(first_id: usize, names: &[&str]) -> Vec<(usize, String)> {
     }
     out.push((id, format!("#[derive(::darling::FromDeriveInput)]\n#[darling(supports(struct_named, enum_any))]\npub struct US{id};\n", id = id)));
     id += 1;
+    // `default = path` where the function's return type only *coerces* to the field's type (a longer lifetime, an array
+    // for a slice, a function pointer for a trait object): the fallback sits at a coercion site
+    for tr in ["FromMeta", "FromDeriveInput", "FromField"] {
+        let attrs = if tr == "FromMeta" { "" } else { "#[darling(attributes(ata))]\n" };
+        out.push((id, format!(
+            "#[derive(::darling::{tr})]\n{attrs}pub struct CO{id}<'a> {{\n    #[darling(skip, default = \"co{id}_a\")] pub a: ::std::borrow::Cow<'a, str>,\n    #[darling(skip, default = \"co{id}_b\")] pub b: &'static [&'static str],\n    #[darling(skip, default = \"co{id}_c\")] pub c: ::std::boxed::Box<dyn ::core::ops::Fn(u8) -> u8>,\n    #[darling(with = co{id}_w, default = \"co{id}_b\")] pub w: &'static [&'static str],\n    #[darling(default)] pub {d}: u8,\n}}\nfn co{id}_a() -> ::std::borrow::Cow<'static, str> {{ ::std::borrow::Cow::Borrowed(\"a\") }}\nfn co{id}_b() -> &'static [&'static str; 2] {{ &[\"a\", \"b\"] }}\nfn co{id}_c() -> ::std::boxed::Box<fn(u8) -> u8> {{ ::std::boxed::Box::new(co{id}_id as fn(u8) -> u8) }}\nfn co{id}_id(x: u8) -> u8 {{ x }}\nfn co{id}_w(_m: &::darling::export::syn::Meta) -> ::darling::Result<&'static [&'static str]> {{ ::darling::export::Ok(&[]) }}\n",
+            tr = tr, attrs = attrs, id = id, d = n(id)
+        )));
+        id += 1;
+    }
     // receivers produced by a `macro_rules!` macro that takes the type's and the fields' names as arguments: the names
     // carry the call site's hygiene, the derive attribute the macro's - generated locals and field accesses must still meet
     for tr in traits.iter() {
